@@ -90,6 +90,14 @@ def build_pool(rng, quick):
                 continue
             req, r = b
             pool.append(("verify_reg", (r.credential, _reg.expectation(req, r.roots, algs=list(cases.ALL_ALGS)))))
+    # rejection paths that handle the RP's own lists: a credential algorithm that is not allowed, with the RP's list in a
+    # non-sorted order, and with the library's default list (no list passed)
+    for fmt, ch in (("none", ("p256", 0, core.ES256)), ("packed-self", ("rsa", 0, core.RS1)), ("none", ("rsa", 0, core.RS1))):
+        b = _reg.build(fmt, ch, ())
+        if b is not None:
+            req, r = b
+            pool.append(("verify_reg", (r.credential, _reg.expectation(req, r.roots, algs=[-8, -259, -36, -257] if ch[2] != core.RS1 else [-7, -259, -8]))))
+            pool.append(("verify_reg", (r.credential, dict(_reg.expectation(req, r.roots), algs=None))))
     for i in range(6 if quick else 20):
         a = _opts.rand_reg_args(rng)
         a["challenge"], a["user_id"] = rng.bytes_(32), rng.bytes_(16)      # deterministic outcome
@@ -120,7 +128,7 @@ def execute(spec):
         from webauthn.helpers.structs import AttestationFormat
         from webauthn.helpers.cose import COSEAlgorithmIdentifier as A
         e2 = copy.deepcopy(e)
-        algs = [A(v) if v in A._value2member_map_ else v for v in e2["algs"]]
+        algs = None if e2["algs"] is None else [A(v) if v in A._value2member_map_ else v for v in e2["algs"]]
         roots = {AttestationFormat(k): list(v) for k, v in (e2.get("roots") or {}).items()}
         # the RP's trust-anchor mapping in the shapes an RP may hold it: a plain dict, an OrderedDict, a defaultdict(list) -
         # and with an entry for some *other* format, so that the lookup for this response's format misses
@@ -141,7 +149,8 @@ def execute(spec):
         cred = cases.reg_record(c)
         out = corr.code_outcome(lambda: webauthn.verify_registration_response(
             credential=cred, expected_challenge=e2["challenge"], expected_rp_id=e2["rp_id"], expected_origin=held["origin"],
-            require_user_verification=False, supported_pub_key_algs=held["algs"], pem_root_certs_bytes_by_fmt=held["roots"] or None),
+            require_user_verification=False, pem_root_certs_bytes_by_fmt=held["roots"] or None,
+            **({} if held["algs"] is None else {"supported_pub_key_algs": held["algs"]})),
             safe(corr.canon))
         return strip(out), raw(out), before, held
     if kind == "gen_reg":
